@@ -238,8 +238,10 @@ def shape_of(node):
 		if isinstance(n, ast.AST):
 			fields = []
 			for name, value in ast.iter_fields(n):
-				if name in ('lineno', 'col_offset', 'end_lineno', 'end_col_offset', 'ctx', 'type_comment', 'kind'):
+				if name in ('lineno', 'col_offset', 'end_lineno', 'end_col_offset', 'ctx', 'type_comment', 'kind', 'type_params'):
 					continue
+				if value is None or value == []:
+					continue      # keeps the skeleton independent of the interpreter version (3.12 adds empty fields such as type_params)
 				if name == 'body' and isinstance(value, list) and value and isinstance(value[0], ast.Expr) \
 					and isinstance(value[0].value, ast.Constant) and isinstance(value[0].value.value, str) \
 					and isinstance(n, (ast.FunctionDef, ast.ClassDef, ast.Module)):
@@ -260,10 +262,16 @@ class Shapes:
 
 	def __init__(self):
 		self.pinned = {}
+		self.pinned_by_module = {}
 		for path in sorted(self.PINNED_DIR.glob('*.json')):
-			self.pinned.update(json.loads(path.read_text(encoding='utf8')))
+			self.pinned_by_module[path.stem] = json.loads(path.read_text(encoding='utf8'))
+			self.pinned.update(self.pinned_by_module[path.stem])
 		self.report = {}
 		self._trees = {}
+
+	def use(self, module_name):
+		"""Selects the pins of one Gen module (the same anchor may be pinned by several modules, possibly at different times)."""
+		self.pinned = self.pinned_by_module.get(module_name, {})
 
 	def tree(self, relpath):
 		if relpath not in self._trees:
